@@ -11,6 +11,7 @@ PROPS['C09'] = dict(
     floor=80,
     assumptions=['"loopEnd only" is read with the loop start at the beginning of the song (statement: "the beginning of the song when absent")'],
     stages=[dict(name='loops', variant='asan', harness='c09_loops.cpp', quick=24000, thorough=400000),
+            dict(name='xmi', variant='asan', harness='c09_loops.cpp', quick=3000, thorough=60000),
             dict(name='memcheck', variant='plain-d', harness='c09_loops.cpp', quick=1000, thorough=20000, budget=150, wall=2400, **{'as': 'loops'},
                  wrapper=['valgrind', '-q', '--error-exitcode=79', '--exit-on-first-error=yes', '--track-origins=no', '--leak-check=no'])],
 )
